@@ -133,6 +133,10 @@ def _cmp(ctx, clause, results, labels, floor=None):
             a = np.asarray(res[k], dtype=np.float64); b = np.asarray(ref[k], dtype=np.float64)
             sc = float(np.max(np.abs(b))) if b.size else 0.0
             if floor and k in floor: sc = max(sc, floor[k])
+            if k.endswith('log_surface_pressure(other modes)'):
+                # rounding noise of the transform of the (large) mean log-pressure must not become the yardstick
+                mk = k.replace('(other modes)', '(mean mode)[log Pa]')
+                if mk in ref: sc = max(sc, 1e-3 * float(np.max(np.abs(ref[mk]))))
             if a.shape != b.shape:
                 ctx.oracle(clause, False, {'field': k, 'scale': lab, 'shapes': [list(a.shape), list(b.shape)]}); continue
             if not (np.all(np.isfinite(a)) and np.all(np.isfinite(b))):
